@@ -23,6 +23,8 @@ fn plan(tier: Tier) -> Vec<Workload> {
         Workload::new("sessions_ship", tier.pick(15_000, 300_000)).ship(),
         Workload::new("chasers", chasers().len() as u64 * tier.pick(1, 4)),
         Workload::new("chasers_ship", chasers().len() as u64).ship(),
+        // subroutines entered from the prompt while a program is suspended, and never returned from, must not pile up
+        Workload::new("suspended", tier.pick(400, 4_000)),
     ]
 }
 
@@ -311,6 +313,51 @@ fn run_case(ctx: &Ctx, index: u64, rep: &mut Report) {
             let c = &cs[(index as usize) % cs.len()];
             run_chaser(ctx, rep, index, c);
         }
+        "suspended" => {
+            let mut rng = ctx.rng(index);
+            let mut sess = Session::new();
+            sess.keep_log = false;
+            let program = ["10 A = 1 : STOP", "15 FOR J = 1 TO 100 : A = A + 1 : NEXT J", "20 PRINT \"resumed\"", "30 END", "100 B = B + 1 : END",
+                "200 FOR I = 1 TO 1 : END", "300 B = B + 1 : PRINT 1 / 0", "400 GOSUB 100"];
+            for l in program {
+                sess.call(Op::Line(l.to_string()));
+            }
+            let by_break = rng.coin();
+            sess.run_line("RUN", if by_break { 3 } else { 50 });
+            if by_break {
+                sess.run_line("CONT", 7 + rng.below(20));
+                sess.settle();
+            }
+            let n = 34 + rng.usize(40);
+            let mut max_stack = 0usize;
+            let mut script = vec![];
+            for _ in 0..n {
+                let l = rng.s(&["GOSUB 100", "GOSUB 200", "GOSUB 300", "GOSUB 400", "GOSUB 100 : PRINT 2"]);
+                script.push(l);
+                sess.run_line(l, 30);
+                sess.settle();
+                if sess.poisoned {
+                    break;
+                }
+                max_stack = max_stack.max(sess.snapshot().stack.len());
+            }
+            let case = || json!({"program": program, "suspended_by": if by_break { "host break" } else { "STOP" }, "typed": script});
+            if !sess.poisoned {
+                let last = sess.run_line("GOSUB 100", 30);
+                if !last.res.is_ok() {
+                    ctx.violation(rep, "C16", "frames-accumulate-across-typed-lines", index,
+                        format!("after {} subroutines entered from the prompt (none returned) a one-level `GOSUB 100` is refused: {} (deepest stack seen at a turn boundary: {})", n, last.res.to_json(), max_stack),
+                        case());
+                }
+            }
+            flush_trips(ctx, rep, index, &sess, case);
+            if let Err(m) = liveness(&mut sess) {
+                ctx.violation(rep, "C16", "unusable-after-typed-gosubs", index, m, case());
+            }
+            rep.add("suspended.typed_gosubs", n as u64);
+            rep.max("suspended.max_stack_at_turn_boundary", max_stack as u64);
+            rep.nontrivial(hash_str(&format!("susp|{}|{:?}", by_break, script)));
+        }
         other => panic!("unknown workload {}", other),
     }
 }
@@ -319,12 +366,14 @@ fn finalize(_tier: Tier, rep: &mut Report) -> Finalize {
     Finalize {
         rule: "sessions: hostile G-hist histories (program entry, runs, breaks, replies, immediate statements, edits, NEW, arbitrary text and boundary numerals), invariants S1-S4 (<= 32 frames, <= 32 loops with distinct variables, array cells == product of dimensions <= 10000, value kinds match name suffixes for variables, cells and parameters) checked through the snapshot hook after EVERY host call, on the monitor and the ship build. \
                chasers: a catalogue of cap-chasing programs with predicted outcome (GOSUB / FN recursion to 32 and 33 frames, 32 and 33 nested FORs, a FOR over one of 32 open loops re-entered, FOR re-entered by GOTO 5000 times, inner loops abandoned 5000 times, DIM products around 10000 cells in 1-3 dimensions, bounds up to 2^64 and products that overflow 64 bits, implicit arrays with 1-19 subscripts, every write path with the wrong kind); the outcome must be the predicted one and the interpreter must still run PRINT 1. \
+               suspended: a program suspended by STOP or a host break, then 34-73 typed `GOSUB n` whose subroutines end without RETURN (END, error, nested GOSUB): a further one-level GOSUB must still be accepted. \
                Non-trivial: a session with >= 100 host calls, or a chaser (all are). Distinct by hash of history / chaser + build profile.".into(),
         floors: vec![
             ("session.calls".into(), 500_000),
             ("max_stack_depth_observed".into(), 32),
             ("max_loop_depth_observed".into(), 32),
             ("chaser.dim".into(), 40),
+            ("suspended.typed_gosubs".into(), 10_000),
             ("chaser.typed-write".into(), 30),
             ("distinct_nontrivial".into(), 2_000),
         ],
